@@ -167,7 +167,11 @@ def check(run):
     bscns = []
     ptopics = [["a"], ["a", "b"], ["a", "b", "c"], ["b"], ["a", ""], ["", "b"]]
     for k, h in enumerate(bh):
-        ops = [{"op": "connect", "c": 1, "n": 1, "client": "s1", "ka": 600}, {"op": "connect", "c": 2, "n": 1, "client": "s2", "ka": 600},
+        # every other history runs on two nodes (s2 on the second one) with at-least-once gossip: every broadcast is delivered
+        # again after newer ones, as memberlist's retransmissions are
+        two = k % 2 == 1
+        ops = ([{"op": "gossip", "mode": "dup"}] if two else []) + \
+              [{"op": "connect", "c": 1, "n": 1, "client": "s1", "ka": 600}, {"op": "connect", "c": 2, "n": 2 if two else 1, "client": "s2", "ka": 600},
                {"op": "connect", "c": 9, "n": 1, "client": "pub", "ka": 600}, {"op": "pub", "c": 9, "t": ["zz"], "p": "warm", "q": 0, "id": 0}]
         pid = 0
         for i, o in enumerate(h):
@@ -180,7 +184,7 @@ def check(run):
                 pid += 1
                 ops.append({"op": "pub", "c": 9, "t": t, "p": "m%d" % pid, "q": pid % 2, "id": pid})
         ops.append({"op": "quiesce"})
-        bscns.append({"nodes": [1], "ops": ops})
+        bscns.append({"nodes": [1, 2] if two else [1], "ops": ops})
     btpath, crashes = brokerlib.execute(run, bscns, "c01b", shards=12)
     if crashes:
         raise vlib.Inconclusive("broker driver died: %s" % crashes[0][2][-2000:])
@@ -215,7 +219,7 @@ def check(run):
         "samples": [scns[0]["ops"], scns[len(scns) // 2]["ops"], scns[-1], {"trace_excerpt": vlib.head_events(tpath, 5)}],
     }, ["filters with '#' in a non-final position or '+'/'#' inside a level are invalid in MQTT and excluded",
         "topic/filter strings are built by the harness by joining level sequences with '/'; the empty string (single empty level) is excluded",
-        "broker level: an even sample of the TLC-generated histories is replayed through two real sessions on one node with two publishes after every step; BrokerTrace requires one PUBLISH per matching active subscription and none otherwise"],
+        "broker level: an even sample of the TLC-generated histories is replayed through two real sessions (on one node, or on two nodes with at-least-once gossip) with two publishes after every step; BrokerTrace requires one PUBLISH per matching active subscription and none otherwise"],
         violations=v.n_new)
     run.log("validated %d scenarios, %d rejected (%d known)" % (validated, len(rejected), v.n_known))
     return rc
